@@ -5,7 +5,7 @@ from jugverif import core, execchecks as X, execengine as E
 
 LEVEL = 'proof'
 THEOREMS = ['Jug.C01.exec_sound', 'Jug.C01.loads_are_reference', 'Jug.C01.load_enabled', 'Jug.C01.rerun_noop', 'Jug.C01.exec_complete_partial',
-            'Jug.C01.started_tasks_have_reference_value', 'Jug.C01.exec_complete', 'Jug.C01.exec_complete_reference', 'Jug.WorkerBridge.worker_scans_all', 'Jug.LoopBridge.loop_scans_all', 'Jug.LoopBridge.loop_fuel_sufficient']
+            'Jug.C01.started_tasks_have_reference_value', 'Jug.C01.exec_complete', 'Jug.C01.exec_complete_reference', 'Jug.WorkerBridge.worker_scans_all', 'Jug.LoopBridge.loop_scans_all', 'Jug.LoopBridge.loop_fuel_sufficient', 'Jug.LoopBridge.loop_conforms']
 
 
 def extract():
@@ -27,6 +27,8 @@ def check(run):
                 'Lean model, every stored result = sequential value, value() of every top-level variable = plain-Python evaluation of the same text, second execute runs nothing; '
                 'non-trivial = at least two workers executed tasks; distinct by (program, backend, workers, flags, schedule)')
     drv = X.setup(run, THEOREMS)
+    from jugverif import seedproc
+    seedproc.family(run)
     X.loop_correspondence(run, drv)
     rng = core.rng_for(run.seed, 'c01')
     scratch = core.scratch_dir()
